@@ -45,7 +45,7 @@ UNSET = object()
 def floors(tier):
     return {"kind=int": 500, "kind=scaled": 300, "kind=flag": 200, "kind=bytes": 50, "kind=float": 50,
             "kind=count": 50, "kind=disc": 30, "refused": 1500, "accepted": 500, "outside": 2000,
-            "python -O": 3000}
+            "python -O": 3000, "reserved-flag": 300}
 
 
 def plan(tier, seed):
@@ -530,6 +530,31 @@ def run_optimised(spec, ctx, acc):
             acc.violations.append({"key": k, "case": case, "detail": d + " [interpreter started with -O]"})
 
 
+def _all_defs(defn):
+    """Every value of a definition, groups flattened."""
+    for v in defn.values():
+        yield v
+        if G.is_group_def(v):
+            yield from _all_defs(v[1])
+
+
+def reserved_flags(nodes):
+    """Attribute names (with group suffix) of the reserved bit flags of an instance."""
+    res = []
+
+    def walk(ns, idx):
+        sfx = G.suffix(idx)
+        for nd in ns:
+            if nd[0] == "b":
+                res.extend(fl[0] + sfx for fl in nd[3] if fl[0].startswith("reserved"))
+            elif nd[0] == "g":
+                for i, it in enumerate(nd[2]):
+                    walk(it, idx + (i + 1,))
+
+    walk(nodes, ())
+    return res
+
+
 def run_shard(spec, ctx, acc):
     if spec.get("what") == "race":
         # steady-state concurrency (see vp/props/racing.py)
@@ -591,6 +616,27 @@ def run_shard(spec, ctx, acc):
             core.hyp_search(acc, st.tuples(inst, st.sampled_from([1, 0])).flatmap(with_scaled), check,
                             seed=core.derive(ctx["seed"], PROP, "scaled", t.label),
                             max_examples=max(8, n // 3), known=known, rounds=3)
+        # reserved bit flags are fields too: the parser does not report them, the constructor
+        # takes them by name - values that fit are encoded, values that do not are refused
+        def with_reserved(nodes, base=base):
+            rnames = reserved_flags(nodes)
+            if not rnames:
+                return st.just(dict(base, bf=1, nodes=nodes, hostile=[]))
+
+            def one(name):
+                fld = find_field(nodes, name, 1)
+                bits = codec.tsize(fld[2][1])
+                return st.one_of(st.integers(0, (1 << bits) - 1), st.sampled_from([1, (1 << bits) - 1, 1 << bits, -1, 1 << 40]),
+                                 hostile_values((bits + 7) // 8)).map(lambda v: [name, v])
+
+            return st.sampled_from(rnames).flatmap(one).map(lambda h: dict(base, bf=1, nodes=nodes, hostile=[h]))
+
+        if any(G.is_bitfield_def(v) and any(k.startswith("reserved") for k in v[1]) for v in _all_defs(t.defn)):
+            before = acc.evaluations
+            core.hyp_search(acc, inst.flatmap(with_reserved), check,
+                            seed=core.derive(ctx["seed"], PROP, "reserved", t.label),
+                            max_examples=max(10, n // 3), known=known, rounds=3)
+            acc.classes["reserved-flag"] += acc.evaluations - before
         seqnames = sequence_fields(t.defn)
         if seqnames:
             def with_seq(nodes_bf, base=base, seqnames=seqnames):
